@@ -67,10 +67,12 @@ CFG = {
         "the VM state; trees are what the parser accepts (Compile.wf_stmt: break/continue in a loop and not across a capture, loop.* inside "
         "a for, user variables not named __tera_context/__tera_loop_*); includes point forward in the library list (acyclic, C11). "
         "Expression forms compile_correct covers: constants, variables, loop.*, attributes (plain / optional), not/and/or, all binary operators, "
-        "unary minus, ternary, subscripts and slices (plain / optional), tests, filters with kwargs; the meaning of an operator / subscript / slice "
+        "unary minus, ternary, subscripts and slices (plain / optional), tests, filters and function calls with kwargs; the meaning of an operator / subscript / slice "
         "on two values is a parameter of the reference interpreter (builtins b_binop, b_neg, b_subscript, b_slice = what the VM model does for the "
         "instruction; C13/C14/C15 own them): proved are evaluation order, error propagation, short-circuit and single-branch evaluation. "
-        "Function calls, array and map literals are ported and listing-checked (Model/Compile.v, `compile` family) but EXCLUDED from compile_correct by wf_expr",
+        "Function calls with kwargs are covered as well (b_function; extra world hypothesis: functions do not read the VM state, true of World0 and World1; "
+        "`super()` is excluded by wf_expr). Array and map literals are ported and listing-checked (Model/Compile.v, `compile` family) but EXCLUDED from "
+        "compile_correct by wf_expr",
         "the statement-tree printer of the harness (tree -> template source and tree -> Gallina term) is trusted to print the same tree; "
         "the `compile` family would expose a divergence as a listing mismatch",
     ],
@@ -88,7 +90,7 @@ MANIFEST = (
     "Theorems state the documented scoping order, the loop.* counters for every container and every iteration, and where assignments live, "
     "for all states of the Gallina port of the VM; compile_correct: for every library of statement trees (if/elif/else, for/else over arrays, "
     "strings, maps, break/continue, set/set_global, set blocks, filter sections, includes; any nesting; expressions with every binary operator, "
-    "unary minus, ternary, subscripts, slices, optional chaining, tests, filters with kwargs), every context/global context, the "
+    "unary minus, ternary, subscripts, slices, optional chaining, tests, filters and function calls with kwargs), every context/global context, the "
     "compiled code (port of compile_node with back-patched targets) run on the VM port yields exactly the reference interpreter's text or both "
     "fail (induction on statements with a code-at-pc invariant, on items for loops, on the library for includes; exact fuel accounting). "
     "Run-level: include_state_is_fresh, nothing_survives_render for every chunk. Partial: capture exactness is proved for compiled bodies, "
